@@ -111,7 +111,7 @@ def convert_facebook_url_to_mobile(url):
     except ValueError:
         splitted = None
 
-    if splitted is None or "facebook" not in splitted.netloc:
+    if splitted is None or "facebook" not in splitted.netloc.lower():
         raise TypeError(
             "ural.facebook.convert_facebook_url_to_mobile: %s is not a facebook url"
             % url
